@@ -186,6 +186,7 @@ class Renderer:
         self.depth = 0
         self.file = None
         self.stmt_stack = []
+        self.cur_stmt = None
         self.occurrences = []     # (file, off0, off1, Def, spelled component index, ncomponents)
 
     # ---- token helpers
@@ -229,7 +230,7 @@ class Renderer:
             if mod:
                 self.tok(mod, "punct")
                 self.gap("none")
-            self._path(path, d)
+            self._path(path, d, site if not (getattr(self.prog, "exports", None) and d in self.prog.exports and not self._inside(site, d)) else None)
         elif k == "blk":
             self.tok(t[2], "punct", begin=[("occ", (t[1], t[2]))])
         elif k == "un":
@@ -267,13 +268,32 @@ class Renderer:
     def _inside(self, site, d):
         return d.scope in site.chain()
 
-    def _path(self, path, d):
+    def _path(self, path, d, site=None):
         n = len(path)
+        # what each intermediate component denotes: the label that owns the named scope on the way down to d
+        targets = [None] * n
+        targets[-1] = d
+        if site is not None and n > 1:
+            anc = site
+            k = 0
+            while k < n and path[k] == "super":
+                anc = anc.parent
+                k += 1
+            if k == 0:
+                a = site
+                while a is not None and P._down(a, path) is not d:
+                    a = a.parent
+                anc = a
+            if anc is not None:
+                for j in range(k, n - 1):
+                    t = P._down(anc, path[k:j + 1])
+                    targets[j] = t if isinstance(t, P.Def) else None
         for i, comp in enumerate(path):
             if i:
                 self.tok(".", "punct")
             cls = "kw" if comp == "super" else "id"
-            self.tok(comp, cls, begin=[("occb", (d, i, n))], end=[("occe", (d, i, n))])
+            key = (d, i, n, targets[i], self.cur_stmt, site)
+            self.tok(comp, cls, begin=[("occb", key)], end=[("occe", key)])
 
     # ---- statements
     def block(self, body, st):
@@ -298,6 +318,15 @@ class Renderer:
             self.stmt_stack.pop()
 
     def _stmt(self, s):
+        k = s.k
+        outer_stmt = getattr(self, "cur_stmt", None)
+        self.cur_stmt = s
+        try:
+            self._stmt2(s)
+        finally:
+            self.cur_stmt = outer_stmt
+
+    def _stmt2(self, s):
         k = s.k
         first = len(self.items)
         if k == "instr":
@@ -447,7 +476,7 @@ class Renderer:
             self.tok(")")
             self.block(s.block, s)
         elif k == "macrocall":
-            self.tok(s.m.d.name, "id", begin=[("mark", (s, "name")), ("occb", (s.m.d, 0, 1))], end=[("marke", (s, "name")), ("occe", (s.m.d, 0, 1))])
+            self.tok(s.m.d.name, "id", begin=[("mark", (s, "name")), ("occb", (s.m.d, 0, 1, s.m.d, s, s.scope))], end=[("marke", (s, "name")), ("occe", (s.m.d, 0, 1, s.m.d, s, s.scope))])
             self.gap("opt")
             self.tok("(")
             for i, a in enumerate(s.args):
@@ -474,7 +503,7 @@ class Renderer:
                         self.gap("opt")
                         self.tok(",")
                         self.gap("opt", want_space=True)
-                    self.tok(d.name, "id", begin=[("occb", (d, 0, 1))], end=[("occe", (d, 0, 1))])
+                    self.tok(d.name, "id", begin=[("occb", (d, 0, 1, d, s, s.scope))], end=[("occe", (d, 0, 1, d, s, s.scope))])
                     if alias:
                         self.gap("sp")
                         self.tok("as", "kw")
@@ -583,10 +612,12 @@ class Renderer:
                 open_[("occ", key[0].uid, key[1], off)] = off
                 self._last_occ = off
             elif kind == "occe":
-                d, i, n = key
+                d, i, n = key[:3]
                 o0 = self._last_occ
                 l0, c0 = lc(o0)
-                self.occurrences.append({"file": self.file, "o0": o0, "o1": off, "line": l0, "c0": c0, "c1": lc(off)[1], "def": d, "comp": i, "ncomp": n})
+                self.occurrences.append({"file": self.file, "o0": o0, "o1": off, "line": l0, "c0": c0, "c1": lc(off)[1], "def": d, "comp": i, "ncomp": n,
+                                         "target": key[3] if len(key) > 3 else (d if i == n - 1 else None), "stmt": key[4] if len(key) > 4 else None,
+                                         "site": key[5] if len(key) > 5 else None})
             elif kind == "occ":
                 pass
 
